@@ -135,11 +135,21 @@ fn simplify_column_predicates(predicates: Vec<Expr>) -> Result<Vec<Expr>> {
     let mut result = Vec::new();
 
     if !eq_predicates.is_empty() {
-        // If there are many equality predicates, we can only keep one if they are all the same
+        // If there are many equality predicates, we can only keep one if they
+        // all compare against the same literal (`a = 1` and `1 = a` are the same)
+        let first_literal = predicate_literal(&eq_predicates[0]);
         if eq_predicates.len() == 1
-            || eq_predicates.iter().all(|e| e == &eq_predicates[0])
+            || eq_predicates
+                .iter()
+                .all(|e| predicate_literal(e) == first_literal)
         {
             result.push(eq_predicates.pop().unwrap());
+        } else if eq_predicates
+            .iter()
+            .any(|e| predicate_literal(e).is_none_or(|v| v.is_null()))
+        {
+            // `a = NULL` is NULL rather than false, keep the predicates as they are
+            result.extend(eq_predicates);
         } else {
             // If they are not the same, add a false predicate
             result.push(Expr::Literal(ScalarValue::Boolean(Some(false)), None));
@@ -197,24 +207,33 @@ fn find_most_restrictive_predicate(
 
     for (idx, pred) in predicates.iter().enumerate() {
         if let Expr::BinaryExpr(BinaryExpr { left, op, right }) = pred {
-            // Extract the literal value based on which side has it
-            let scalar_value = match (right.as_literal(), left.as_literal()) {
-                (Some(scalar), _) => Some(scalar),
-                (_, Some(scalar)) => Some(scalar),
-                _ => None,
+            // Extract the literal value based on which side has it, and
+            // normalize the operator to the `column <op> literal` orientation
+            // (`5 < a` is `a > 5`)
+            let (scalar_value, op) = match (right.as_literal(), left.as_literal()) {
+                (Some(scalar), _) => (Some(scalar), Some(*op)),
+                (_, Some(scalar)) => (Some(scalar), op.swap()),
+                _ => (None, None),
             };
 
             if let Some(scalar) = scalar_value {
+                // A comparison with a NULL literal is always NULL: it is
+                // neither more nor less restrictive than the other
+                // predicates, so no predicate can be dropped
+                if scalar.is_null() {
+                    return Ok(None);
+                }
+
                 if let Some(current_best) = best_value {
                     let comparison = scalar.try_cmp(current_best)?;
                     let is_better = if find_greater {
                         comparison == std::cmp::Ordering::Greater
                             || (comparison == std::cmp::Ordering::Equal
-                                && op == &Operator::Gt)
+                                && op == Some(Operator::Gt))
                     } else {
                         comparison == std::cmp::Ordering::Less
                             || (comparison == std::cmp::Ordering::Equal
-                                && op == &Operator::Lt)
+                                && op == Some(Operator::Lt))
                     };
 
                     if is_better {
@@ -230,6 +249,17 @@ fn find_most_restrictive_predicate(
     }
 
     Ok(Some(predicates[most_restrictive_idx].clone()))
+}
+
+/// Returns the literal side of a `column <op> literal` / `literal <op> column`
+/// predicate, if any.
+fn predicate_literal(pred: &Expr) -> Option<&ScalarValue> {
+    match pred {
+        Expr::BinaryExpr(BinaryExpr { left, right, .. }) => {
+            right.as_literal().or_else(|| left.as_literal())
+        }
+        _ => None,
+    }
 }
 
 /// Extracts a column reference from an expression, if present.
@@ -292,6 +322,48 @@ mod tests {
             }) if left == &Box::new(col("a")) && right == &Box::new(lit(5i32)))
         });
         assert!(has_column_predicate, "Should have a < 5 predicate");
+    }
+
+    #[test]
+    fn test_simplify_predicates_literal_on_left() {
+        // 0 <= a AND 0 < a  -->  0 < a
+        let predicates = vec![lit(0i32).lt_eq(col("a")), lit(0i32).lt(col("a"))];
+        let result = simplify_predicates(predicates).unwrap();
+        assert_eq!(result, vec![lit(0i32).lt(col("a"))]);
+
+        // a >= 0 AND 0 < a  -->  0 < a
+        let predicates = vec![col("a").gt_eq(lit(0i32)), lit(0i32).lt(col("a"))];
+        let result = simplify_predicates(predicates).unwrap();
+        assert_eq!(result, vec![lit(0i32).lt(col("a"))]);
+
+        // 0 >= a AND 0 > a  -->  0 > a
+        let predicates = vec![lit(0i32).gt_eq(col("a")), lit(0i32).gt(col("a"))];
+        let result = simplify_predicates(predicates).unwrap();
+        assert_eq!(result, vec![lit(0i32).gt(col("a"))]);
+
+        // a = 1 AND 1 = a  -->  1 = a
+        let predicates = vec![col("a").eq(lit(1i32)), lit(1i32).eq(col("a"))];
+        let result = simplify_predicates(predicates).unwrap();
+        assert_eq!(result, vec![lit(1i32).eq(col("a"))]);
+    }
+
+    #[test]
+    fn test_simplify_predicates_null_literal() {
+        let null = || lit(ScalarValue::Int32(None));
+
+        // a > 0 AND a > NULL is never true, `a > NULL` can not be dropped
+        let predicates = vec![col("a").gt(lit(0i32)), col("a").gt(null())];
+        let result = simplify_predicates(predicates.clone()).unwrap();
+        assert_eq!(result, predicates);
+
+        let predicates = vec![col("a").lt(null()), col("a").lt(lit(0i32))];
+        let result = simplify_predicates(predicates.clone()).unwrap();
+        assert_eq!(result, predicates);
+
+        // a = 1 AND a = NULL is NULL (not false) for a = 1
+        let predicates = vec![col("a").eq(lit(1i32)), col("a").eq(null())];
+        let result = simplify_predicates(predicates.clone()).unwrap();
+        assert_eq!(result, predicates);
     }
 
     #[test]
